@@ -1,7 +1,8 @@
 #!/bin/bash
 # Coverage-guided stage of the thorough tier:  ./fuzz.sh <ID> [runs-per-job] [jobs]
 # Builds the libFuzzer target (harness/fuzz, cargo-fuzz, nightly) from /repo's working tree and runs <jobs>
-# independent libFuzzer processes, each for a fixed number of runs, on the property's own generator and
+# independent libFuzzer processes, each for a fixed number of runs or VERIF_FUZZ_SECS seconds (default 600;
+# whichever comes first - the budget only ends the stage, it is never a verdict), on the property's own generator and
 # oracle (see harness/fuzz/fuzz_targets/prop.rs). Exit: 0 held, 1 violation (VIOLATION line printed, replay
 # file written by the target), 2 anything else (build problem, libFuzzer timeout/OOM report: inconclusive).
 set -u
@@ -27,7 +28,7 @@ r = random.Random(seed * 1000 + j)
 for k in range(8):
     open(f"{d}/seed{k}", "wb").write(bytes(r.getrandbits(8) for _ in range(r.choice([64, 256, 1024, 2048]))))
 PY
-  PV_PROP="$ID" PV_FUZZ_STATS="$WORK/stats$j.json" "$BIN" "$WORK/corpus$j" -runs="$RUNS" -seed=$((SEED * 1000 + j)) \
+  PV_PROP="$ID" PV_FUZZ_STATS="$WORK/stats$j.json" "$BIN" "$WORK/corpus$j" -runs="$RUNS" -max_total_time="${VERIF_FUZZ_SECS:-600}" -seed=$((SEED * 1000 + j)) \
      -max_len=4096 -len_control=0 -timeout=120 -rss_limit_mb=4096 -artifact_prefix="$WORK/artifact$j-" >"$WORK/log$j.txt" 2>&1 &
   pids+=($!)
 done
